@@ -33,6 +33,8 @@ _tmp = {"dir": None}
 
 def setup_symbolic():
     shims.install([lrc], ["float"])
+    from props import handoff
+    handoff.setup_symbolic()
 
 
 def tmpdir():
@@ -334,6 +336,11 @@ def instances(tier, seed):
     for n in ((2, 3) if q else (2, 3, 4)):
         out.append(Instance("split_table[%d]" % n, h_split_table(n), [R + "split_read_group_table", R + "load_table", R + "ReadTableGrouper.get_group_id"],
                             "%d alignments with solver-chosen read/chromosome, 1-2 BAM files" % n, weight=9 ** n, budget_s=900))
+    from props import handoff
+    for n in ((2,) if q else (2, 3)):
+        out.append(Instance("group_universe_handoff[%d]" % n, handoff.h_handoff(n, ("A", "")),
+                            ["src.dataset_processor:DatasetProcessor.collect_reads", "src.serialization:write_list", "src.serialization:read_list"],
+                            "%d alignments with solver-chosen groups (incl. the empty-string group) on two chromosomes" % n, weight=3000, budget_s=1800))
     for n in ((2,) if q else (2, 3)):
         out.append(Instance("profile_groups[%d]" % n, h_profile_groups(n), [L + "ProfileFeatureCounter.add_read_info_from_profile",
                                                                            L + "ExonCounter.add_read_info"],
